@@ -5,7 +5,10 @@
 // "verif" build tag; without the tag every function is an empty, inlined no-op.
 package verifhook
 
-import "sync"
+import (
+	"sync"
+	"time"
+)
 
 // H is the installed hook. point names the action (the label of the
 // specification) the calling goroutine is about to perform; enabled, when not
@@ -82,5 +85,15 @@ func AtMutex(point string, mu *sync.Mutex) {
 func Log(point string, a, b int64, s string) {
 	if l := L; l != nil {
 		l(point, a, b, s)
+	}
+}
+
+// T is the installed ticker hook.
+var T func(t *time.Ticker)
+
+// Ticker hands the report loop's ticker to the harness, which drives it.
+func Ticker(t *time.Ticker) {
+	if f := T; f != nil {
+		f(t)
 	}
 }
